@@ -249,7 +249,18 @@ def segments(pts):
     return [(pts[k], pts[k + 1]) for k in range(len(pts) - 1)]
 
 
-LATT = [k / 2 for k in range(0, 7)]
+def search_segments(case):
+    """(query index, [segments]) of the unit < 0 segment/track neighbourhood searches: their answer depends on the
+    cells of the QUERY segments, which are observed too so that the searches can be compared"""
+    out = []
+    for n, q in enumerate(case["queries"]):
+        if q[0] == "nseg" and q[5] < 0:
+            out.append((n, [(q[1:3], q[3:5])]))
+        elif q[0] == "ntrk" and q[1] < 0:
+            out.append((n, segments(q[2])))
+    return out
+
+
 
 
 class P(Prop):
@@ -338,6 +349,19 @@ class P(Prop):
                     grid["%d:%d" % (i, j)] = sorted(c)
         out["grid"] = grid
         out["q"] = [self.run_query(si, q) for q in case["queries"]]
+        sc = {}
+        for n, segs in search_segments(case):
+            cells = []
+            for a, b in segs:
+                try:
+                    p1 = si._SpatialIndex__getCell(self.E(fl(a[0]), fl(a[1]), 0.0))
+                    p2 = si._SpatialIndex__getCell(self.E(fl(b[0]), fl(b[1]), 0.0))
+                    cells.append(None if p1 is None or p2 is None else
+                                 sorted([int(c[0]), int(c[1])] for c in si._SpatialIndex__cellsCrossSegment(p1, p2)))
+                except Exception as e:
+                    cells.append({"err": err_kind(e)})
+            sc[str(n)] = cells
+        out["scells"] = sc
         return out
 
     def run_query(self, si, q):
@@ -410,6 +434,9 @@ class P(Prop):
                 qs.append(";".join([k, str(q[1])] + [num(v) for p in q[2] for v in p]))
             else:
                 qs.append(";".join([k] + [num(v) for v in q[1:]]))
+        for n, segs in search_segments(case):
+            for a, b in segs:
+                qs.append(";".join(["gcross", num(a[0]), num(a[1]), num(b[0]), num(b[1])]))
         return ["C08.run %s %s %s %s %s %s" % (mode, feats, res, num(case["margin"]), late, "|".join(qs))]
 
     def decode(self, case, replies):
@@ -423,7 +450,9 @@ class P(Prop):
         if r.startswith("err:"):
             return {"err": r}
         parts = r.split("|")
-        if len(parts) != len(case["queries"]) + 2:
+        ss = search_segments(case)
+        nextra = sum(len(segs) for _, segs in ss)
+        if len(parts) != len(case["queries"]) + 2 + nextra:
             raise ValueError("reply has %d parts for %d queries" % (len(parts), len(case["queries"])))
         info = parts[0].split(",")
         out = {"info": [val(info[0]), val(info[1]), val(info[2]), val(info[3]), int(info[4]), int(info[5]), val(info[6]), val(info[7])]}
@@ -435,7 +464,14 @@ class P(Prop):
         out["grid"] = grid
         nats = lambda t: [] if t == "_" else sorted(int(v) for v in t.split(","))
         qo = []
-        for q, t in zip(case["queries"], parts[2:]):
+        cellsof = lambda t: [] if t == "_" else sorted([int(c.split(":")[0]), int(c.split(":")[1])] for c in t.split(";"))
+        extra = parts[2 + len(case["queries"]):]
+        sc, pos = {}, 0
+        for n, segs in ss:
+            sc[str(n)] = [None if t == "none" else cellsof(t) for t in extra[pos:pos + len(segs)]]
+            pos += len(segs)
+        out["scells"] = sc
+        for q, t in zip(case["queries"], parts[2:2 + len(case["queries"])]):
             k = q[0]
             if t.startswith("err:"):
                 qo.append({"err": t})
@@ -493,7 +529,8 @@ class P(Prop):
         for n, (q, a, b) in enumerate(zip(case["queries"], io["q"], mo["q"])):
             search = q[0] in ("ncell", "npt", "nseg", "ntrk") and (q[-1] if q[0] != "ntrk" else q[1]) < 0
             if search:
-                ok = close(a, b, self.rel_tol) if same_grid else True
+                same_cells = io.get("scells", {}).get(str(n)) == mo.get("scells", {}).get(str(n))
+                ok = close(a, b, self.rel_tol) if (same_grid and same_cells) else True
             elif isinstance(a, dict) and isinstance(b, dict) and "u" in a and "u" in b:
                 ok = a["u"] == b["u"] and sub(b["res"], a["res"])
             else:
